@@ -10,6 +10,8 @@ structure State where
   cfg : Cfg := { limit := 1, nIdx := 1 }
   s : St := ActixNet.Srv.init { limit := 1, nIdx := 1 } []
   started : Bool := false
+  /-- an `inject` act appeared in an env line or a poll schedule of this case -/
+  injSeen : Bool := false
 
 def init : State := {}
 
@@ -56,6 +58,8 @@ def parseOrder (s : String) : Option (List Ev) :=
 
 def kv (ws : List String) (key : String) : Option String :=
   ws.findSome? fun w => if w.startsWith (key ++ "=") then some ((w.drop (key.length + 1)).toString) else none
+
+def isInject : EnvAct → Bool | .inject _ _ => true | _ => false
 
 def showAct : ActRes → String
   | .ok => "ok" | .bad => "bad" | .conn c => s!"c{c.1}@{c.2}" | .refused => "refused" | .none => "none"
@@ -228,15 +232,26 @@ def step (st : State) (line : String) : State × String :=
       | none => (st, "bad-op")
     | ["env", acts] => match parseActs acts with
       | some as =>
+        let st := { st with injSeen := st.injSeen || as.any isInject }
         let st' := { st with s := runEnv st.cfg st.s as }
         (st', snapshot st' st.s)
       | none => (st, "bad-op")
     | "poll" :: rest =>
+      -- `nofile=1`: the iteration runs while the process cannot allocate a descriptor: every accept() fails with
+      -- EMFILE (really, in the kernel). In the model: each listener's next accepts fail with EMFILE for the
+      -- duration of this iteration only.
+      if (kv rest "nofile").isSome && ((kv rest "nofile") != some "1" || (kv rest "y").isSome || (kv rest "quiet").isSome || st.injSeen) then (st, "bad-op") else
+      let nofile := (kv rest "nofile") == some "1"
       match parseOrder ((kv rest "order").getD ""), (((kv rest "y").getD "").splitOn ";").mapM parseActs with
       | some order, some sched =>
         let sched := if (kv rest "y").isNone then [] else sched
+        let st := { st with injSeen := st.injSeen || sched.any (·.any isInject) }
         if st.s.exited then (st, "ev=ok yields=0 " ++ snapshot st st.s) else
-        let st' := { st with s := ActixNet.Srv.poll st.cfg st.s order sched }
+        let setInj (s : St) (es : List AccErr) : St :=
+          (List.range s.nLst).foldl (fun s l => { s with lst := upd s.lst l { s.lst l with inject := es } }) s
+        let s0 := if nofile then setInj st.s (List.replicate 4 AccErr.emfile) else st.s
+        let s1 := ActixNet.Srv.poll st.cfg s0 order sched
+        let st' := { st with s := if nofile then setInj s1 [] else s1 }
         -- `quiet=1`: the driver did not ring the waker itself, so the waker event is there iff an interest is queued
         let ev := if (kv rest "quiet") == some "1" then
             (if order.contains .waker == !st.s.wq.isEmpty then evCheck st.s (if order.contains .waker then order else .waker :: order) st'.s.exited
